@@ -73,6 +73,14 @@ func newLog(storage Storage, logger Logger) *raftLog {
 // newLogWithSize returns a log using the given storage and max
 // message size.
 func newLogWithSize(storage Storage, logger Logger, maxApplyingEntsSize entryEncodingSize) *raftLog {
+	if maxApplyingEntsSize == 0 {
+		// A zero quota (Config.MaxSizePerMsg = 0 with MaxCommittedSizePerReady
+		// unset) means "one entry at a time". A quota of one byte has exactly
+		// that effect: limitSize always returns at least one entry, and
+		// application pauses while that entry is outstanding. With a literal 0
+		// nextCommittedEnts would panic on its "budget is positive" assertion.
+		maxApplyingEntsSize = 1
+	}
 	firstIndex, err := storage.FirstIndex()
 	if err != nil {
 		panic(err) // TODO(bdarnell)
